@@ -86,6 +86,9 @@ Proof.
   repeat (destruct H as [H|H]; [subst; reflexivity|]). contradiction.
 Qed.
 
+Lemma Forall2_len {A B} (R : A -> B -> Prop) la lb : Forall2 R la lb -> length la = length lb.
+Proof. induction 1; cbn [length]; [reflexivity|f_equal; assumption]. Qed.
+
 Section Group.
   Hypothesis G : secp256k1_group.
 
@@ -96,9 +99,9 @@ Section Group.
     /\ outside_flag sg = false /\ 9 <= length sg <= 73.
   Proof.
     intros Vsk Hf Hpl Hsk. unfold tx_sign_element.
-    destruct (sighash_preimage sha_256d t idx f sub v) as [pre| |] eqn:Epre; cbn [bind]; try discriminate.
-    destruct (sign_with_deterministic_k ref_prims sk pre SHSha256d true) as [s| |] eqn:Es; cbn [bind]; try discriminate.
-    intros E. inversion E; subst sg; clear E.
+    destruct (sighash_preimage sha_256d t idx f sub v) as [pre| |] eqn:Epre; cbn [bind]; [|intros E; discriminate E|intros E; discriminate E].
+    destruct (sign_with_deterministic_k ref_prims sk pre SHSha256d true) as [s| |] eqn:Es; cbn [bind]; [|intros E; discriminate E|intros E; discriminate E].
+    intros E. assert (Esg : sg = to_der_bytes s ++ [n2b f]) by congruence. subst sg. clear E.
     pose proof (sign_det_low _ _ _ _ _ Es) as [Hr Hs].
     assert (Hs' : (1 <= sig_s s < secp_n)%Z).
     { split; [lia|]. assert (secp_n / 2 < secp_n)%Z by (apply Z.div_lt; reflexivity). lia. }
@@ -112,15 +115,15 @@ Section Group.
           rewrite (bip143_total sha_256d) in Epre by (rewrite <- std_forkid_eq; exact Hf).
           rewrite (bip143_preimage_ext sha_256d Hd) in Epre by exact sha_256d_def.
           rewrite toks_bytes_flatten by exact Hpl.
-          destruct (bip143_preimage Hd (view_tx t) idx f (to_bytes sub) v); [|discriminate].
-          destruct (single_without_output (view_tx t) idx f); [discriminate|]. inversion Epre. reflexivity.
+          destruct (bip143_preimage Hd (view_tx t) idx f (to_bytes sub) v); [|discriminate Epre].
+          destruct (single_without_output (view_tx t) idx f); [discriminate Epre|]. inversion Epre. reflexivity.
         - assert (Hnf : mem_N f std_forkid_flags = false).
           { destruct (mem_N f std_forkid_flags) eqn:E; [|reflexivity].
-            apply forkid_not_legacy in E. apply mem_N_In in Hf. congruence. }
+            apply forkid_not_legacy in E. apply mem_N_In in Hf. rewrite Hf in E. discriminate E. }
           rewrite Hnf. replace (mem_N f std_legacy_flags) with true by (symmetry; apply mem_N_In; exact Hf).
           rewrite (legacy_total sha_256d) in Epre by
             (try exact Hpl; unfold legacy_path_flags; apply in_or_app; left; rewrite <- std_legacy_eq; exact Hf).
-          destruct (legacy_preimage (view_tx t) idx f (flatten sub)); [|discriminate]. inversion Epre. reflexivity. }
+          destruct (legacy_preimage (view_tx t) idx f (flatten sub)); [|discriminate Epre]. inversion Epre. reflexivity. }
       unfold spec_sig_valid, sig_valid, sig_data. rewrite split_sig_app.
       rewrite b2n_n2b by (apply std_flag_small; exact Hf).
       fold (spec_sighash (view_tx t') idx f (flatten sub) v). rewrite Hspec.
@@ -150,15 +153,6 @@ Section Group.
     unfold sec1_encode. destruct (sk_compressed sk); cbn [length]; rewrite ?app_length, ?be32_length; lia.
   Qed.
 
-  (* ---------------------------------------------------------------- *)
-  (* the script code of a locking script without separators is the whole script *)
-  Lemma code_of_no_sep : forall ts start, forallb (fun x => negb (is_separator x)) ts = true -> code_of start ts = start.
-  Proof.
-    induction ts as [|x r IH]; intros start H; cbn [code_of]; [reflexivity|].
-    cbn [forallb] in H. apply andb_true_iff in H. destruct H as [Hx Hr]. apply negb_true_iff in Hx. rewrite Hx.
-    destruct (is_check x); [reflexivity|apply IH; exact Hr].
-  Qed.
-
   Section Spends.
     Variables (t0 t : tx) (idx : nat) (i : txin) (v : N) (l sub : list bit).
     Hypothesis Hin : nth_error (inputs t) idx = Some i.
@@ -171,7 +165,7 @@ Section Group.
     Hypothesis Hsub : plain_bits sub = true /\ flatten sub = script_code (flatten l).
 
     (* P2PK:  <sig> | <key> OP_CHECKSIG, or ... OP_CHECKSIGVERIFY OP_1, separators anywhere *)
-    Theorem library_p2pk_accepted_partial sk f sg vf :
+    Theorem library_p2pk_accepted_partial sk f sg (vf : bool) :
       valid_sk sk -> std_flag f ->
       remove_seps l = [BPush (pubkey_bytes ref_prims sk)] ++ (if vf then [BOp 173; BOp 81] else [BOp 172]) ->
       tx_sign_element ref_prims t0 sk f idx sub v = Ok sg ->
@@ -185,7 +179,7 @@ Section Group.
     Qed.
 
     (* P2PKH:  <sig> <key> | OP_DUP OP_HASH160 <hash160 key> OP_EQUALVERIFY OP_CHECKSIG (or the VERIFY form) *)
-    Theorem library_p2pkh_accepted_partial sk f sg vf :
+    Theorem library_p2pkh_accepted_partial sk f sg (vf : bool) :
       valid_sk sk -> std_flag f ->
       remove_seps l = [BOp 118; BOp 169; BPush (H160 (pubkey_bytes ref_prims sk)); BOp 136]
                       ++ (if vf then [BOp 173; BOp 81] else [BOp 172]) ->
@@ -203,7 +197,7 @@ Section Group.
 
     (* m-of-n:  OP_0 sig_1 .. sig_m | OP_m key_1 .. key_n OP_n OP_CHECKMULTISIG (or the VERIFY form); the signers are a
        subsequence of the key holders, each with a flag byte of its own *)
-    Theorem library_multisig_accepted_partial (sks : list privkey) (signers : list (privkey * N)) (sigs : list bytes) vf :
+    Theorem library_multisig_accepted_partial (sks : list privkey) (signers : list (privkey * N)) (sigs : list bytes) (vf : bool) :
       Forall valid_sk sks ->
       subseq (map fst signers) sks ->
       Forall (fun s => std_flag (snd s)) signers ->
@@ -222,7 +216,7 @@ Section Group.
         - destruct signers; [constructor|discriminate].
         - destruct signers as [|a r]; [discriminate|]. cbn [map] in E. inversion E; subst. inversion Vs; subst.
           constructor; [assumption|]. apply IH; [assumption|reflexivity].
-        - inversion Vs; subst. apply IH; assumption. }
+        - inversion Vs as [|? ? Hx Hl0]. apply IH; [exact Hl0|exact E]. }
       (* every produced element is valid for its signer's key, not outside, and of push size *)
       assert (Hall : Forall2 (fun s sg => spec_sig_valid (view_tx t) idx (script_code (flatten l)) v sg (pubkey_bytes ref_prims (fst s)) = true
                                          /\ outside_flag sg = false /\ 1 <= length sg <= 75) signers sigs).
@@ -230,22 +224,26 @@ Section Group.
         inversion Hfl; subst. inversion Hvalid_signers; subst. constructor; [|apply IH; assumption].
         destruct (signed_element_valid t0 t (fst s) (snd s) idx sub v sg H3 H1 Hpl Hskel Hs) as (Hv & Ho & Hlen).
         rewrite Hcode in Hv. repeat split; try assumption; lia. }
-      assert (Hlen : length sigs = length signers) by (symmetry; exact (Forall2_length Hsig)).
+      assert (Hlen : length sigs = length signers) by (symmetry; exact (Forall2_len _ _ _ Hsig)).
       assert (Hout : Forall (fun sg => outside_flag sg = false) sigs).
       { clear -Hall. induction Hall as [|s sg rs rsg (_ & Ho & _) _ IH]; constructor; assumption. }
       assert (Hu : straight (unlocking i) = true).
       { rewrite Hun. cbn [straight forallb straight_bit]. change (fam_op 0) with true. cbn [andb].
         clear -Hall. induction Hall as [|s sg rs rsg (_ & _ & Hl') _ IH]; [reflexivity|].
         cbn [map forallb]. rewrite (straight_push sg Hl'). exact IH. }
-      assert (Hd0 : is_simple (BOp 0) = true /\ is_sep (BOp 0) = false /\ forall s, stack_exec [BOp 0] s = Ok (s ++ [[]])).
-      { repeat split. }
+      assert (Hupush : forallb (fun b => is_simple b && negb (is_sep b)) (unlocking i) = true).
+      { rewrite Hun. cbn [forallb]. change (is_simple (BOp 0) && negb (is_sep (BOp 0))) with true. cbn [andb].
+        clear. induction sigs as [|s r IH]; [reflexivity|]. cbn [map forallb]. exact IH. }
+      assert (Hustack : forall s, stack_exec (unlocking i) s = Ok (s ++ [] :: sigs)).
+      { intros s. rewrite Hun. cbn [stack_exec]. change (simple_fn (BOp 0)) with (Some (push_number 0)).
+        cbv beta iota. assert (E : push_number 0 s = Ok (s ++ [[]])) by reflexivity. rewrite E. cbn [bind]. rewrite stack_exec_pushes, <- app_assoc. reflexivity. }
       assert (Hsubk : length signers <= length sks).
       { clear -Hsub'. rewrite <- (map_length fst signers). induction Hsub'; cbn [length]; lia. }
       assert (Hmn : 1 <= length sigs <= length keys /\ length keys <= 16) by (unfold keys; rewrite map_length; lia).
       assert (Hcore' : remove_seps l = (op_small (length sigs) :: map BPush keys ++ [op_small (length keys)])
                                         ++ (if vf then [BOp 175; BOp 81] else [BOp 174])).
       { rewrite Hcore. unfold keys. rewrite map_length. reflexivity. }
-      destruct (multisig_family t idx i v l (BOp 0) [] sigs keys vf Hin Hlock Hsat Hun Hd0 Hu Hl Hmn Hcore' Hout) as (_ & _ & Hacc).
+      destruct (multisig_family t idx i v l [] sigs keys vf Hin Hlock Hsat Hupush Hustack Hu Hl Hmn Hcore' Hout) as (_ & _ & Hacc).
       apply Hacc.
       - unfold keys. clear -Vs G. induction Vs; cbn [map]; constructor; [apply pubkey_bytes_decodes; assumption|assumption].
       - (* the matching: signers are a subsequence of the key holders *)
